@@ -333,9 +333,12 @@ class CallMixin:
             return None
         if len(normal) == 1:
             s, val = normal[0]
-            st.pc = s.pc
-            st.heap = s.heap
-            st.log = s.log
+            st.pc[:] = s.pc          # in place: callers may hold references to these containers
+            st.ctrl[:] = s.ctrl
+            st.log[:] = s.log
+            h = dict(s.heap)
+            st.heap.clear()
+            st.heap.update(h)
             st.ghost = s.ghost
             return self.ret_coerce(fv, val)
         # merge
@@ -381,8 +384,7 @@ class CallMixin:
         if fv.cls and 'self' in env and isinstance(env['self'], Obj) and env['self'].cls is None:
             env['self'] = Obj(env['self'].ref, fv.cls)
         self.used_contracts.add(c.label)
-        n = self.call_ord.get(c.label, 0)
-        self.call_ord[c.label] = n + 1
+        n = fr.call_site.get(id(node), 0) if node is not None and hasattr(fr, 'call_site') else 0
         pre = st.copy()
         frame.spec = {'bind': env, 'old': pre, 'old_env': env}
         for i, req in enumerate(c.requires):
@@ -474,7 +476,7 @@ class CallMixin:
                     ln = self.arr_len(st, res, ax)
                     st.pc.append(ln == n if n is not None else ln >= 0)
             for fact in ext.get('facts', []):
-                self.add_fact((fname, str(term), fact), fact_fn(fact, term, terms))
+                self.add_fact((fname, term.get_id(), id(fact)), fact_fn(fact, term, terms))
             return res
         if kind in ('logged', 'fresh'):
             res = None
@@ -535,19 +537,19 @@ class CallMixin:
             return z3.If(x >= 0, z3.ToReal(z3.ToInt(x)), -z3.ToReal(z3.ToInt(-x)))
         if name == 'sqrt':
             s = UF1['sqrt'](xs[0])
-            self.add_fact(('sqrt', str(xs[0])), z3.Implies(xs[0] >= 0, z3.And(s * s == xs[0], s >= 0)))
+            self.add_fact(('sqrt', xs[0].get_id()), z3.Implies(xs[0] >= 0, z3.And(s * s == xs[0], s >= 0)))
             return s
         if name == 'exp':
             e = UF1['exp'](xs[0])
-            self.add_fact(('exp', str(xs[0])), e > 0)
+            self.add_fact(('exp', xs[0].get_id()), e > 0)
             return e
         if name in ('sin', 'cos'):
             s, c = UF1['sin'](xs[0]), UF1['cos'](xs[0])
-            self.add_fact(('sincos', str(xs[0])), s * s + c * c == 1)
+            self.add_fact(('sincos', xs[0].get_id()), s * s + c * c == 1)
             return s if name == 'sin' else c
         if name == 'erf':
             e = UF1['erf'](xs[0])
-            self.add_fact(('erf', str(xs[0])), z3.And(e > -1, e < 1))
+            self.add_fact(('erf', xs[0].get_id()), z3.And(e > -1, e < 1))
             return e
         if name in UF1:
             return UF1[name](xs[0])
@@ -617,7 +619,7 @@ class CallMixin:
                 return len(v)
             if isinstance(v, Obj) and v.kind in ('arr', 'seq'):
                 n = self.arr_len(st, v, 0)
-                self.add_fact(('len>=0', str(n)), n >= 0)
+                self.add_fact(('len>=0', n.get_id()), n >= 0)
                 return n
             if is_str(v):
                 return z3.Length(v)
@@ -625,7 +627,7 @@ class CallMixin:
                 return self.call_method(v, '__len__', [], {}, st, fr, node)
             if isinstance(v, Obj):
                 n = z3.Select(self.field(st, '$len'), v.ref)
-                self.add_fact(('len>=0', str(n)), n >= 0)
+                self.add_fact(('len>=0', n.get_id()), n >= 0)
                 return n
             raise Unsupported('len of %r' % (v,))
         if name == 'range':
